@@ -381,6 +381,30 @@ def run(ctx):
     from . import c10 as _c10ri
     _c10ri.run(_SubRI(ctx, 'C17.3-recipient-identity', 'c10', allow=('C10.3-logical-fields',)))
 
+    # a panic between registration and cleanup unwinds past the cleanup: the entry stays, the caller gets neither reply nor error
+    ctx.rule('C17.1-no-panic-while-registered', 'in the call function no panic-capable site (unwrap/expect, indexing, checked arithmetic, time arithmetic with a caller-supplied duration) lies after the registration in pending_rpcs: '
+             'unwinding from there skips the removal', floor=0)
+    from ..families import panic_sites as _ps17, discharge as _dis17
+    from ..ranges import Ranges as _R17
+    after = B.reachable(ib) - {ib}
+    R17 = _R17(B)
+    n17 = 0
+    for site in _ps17(B):
+        if site['bb'] not in after:
+            continue
+        n17 += 1
+        verdict, detail = _dis17(B, R17, site)
+        inst = 'rpc:%s' % site['desc'][:60]
+        if verdict == 'ok':
+            ctx.ok('C17.1-no-panic-while-registered', inst, detail, ctx.where(B, site['bb']))
+        elif verdict == 'undecided':
+            ctx.undecided('C17.1-no-panic-while-registered', inst, detail, ctx.where(B, site['bb']))
+        else:
+            ctx.bad('C17.1-no-panic-while-registered', inst, '%s after the call has been registered: %s' % (site['kind'], detail), ctx.where(B, site['bb']),
+                    key='PANIC:%s:after-registration:%s' % (RPC, site['kind']))
+    if n17 == 0:
+        ctx.ok('C17.1-no-panic-while-registered', 'rpc', 'no panic-capable site after the registration')
+
 
 def exit_desc(B, bb):
     """line-number-free description of an exit: what error/value it returns"""
